@@ -31,6 +31,7 @@ def unit_values(f, b, xbits, dom, N):
     ra.facts, ra.body, ra.xkeys, ra.xbits, ra.N, ra.dom = f, b, {('loc', 2)}, xbits, N, dom
     ra.env, ra.depth, ra.res, ra.reach, ra.mixed, ra.opaque, ra.panics = {}, 0, Resolver(b), {}, [], [], {}
     ra.acyclic, ra._phi_guard, ra.entries, ra.stop, ra.ptrmap = False, set(), [], set(), None
+    ra._rd_guard, ra._rd_cache, ra.cur_block, ra.opaque_ok, ra.opaque_x = set(), {}, None, False, []
     return [ra.ev(e) for e in seqs.pop()]
 
 
